@@ -94,6 +94,7 @@ def run(ctx, chk):
         chk.ob("C16.phases", f"{meth} (after the vulnerability phase) stores into no host "
                "configuration and no definition table", not bad, "; ".join(bad), f2.module.path)
     check_coverage(ctx, chk)
+    check_own_config(ctx, chk)
     check_os_choices(ctx, chk)
     check_firewall(ctx, chk)
     check_shipped(ctx, chk)
@@ -192,6 +193,64 @@ def check_coverage(ctx, chk):
                       f_or([A(f"None is {d}['os']"), A(f"{h}.os[{d}['os']]")])])
         chk.ob("C16.coverage", f"{meth}: host runs the {key} and (definition OS is None or host "
                "runs it)", f_equiv(true_f, want), f_show(true_f)[:300], fi.module.path)
+
+
+def check_own_config(ctx, chk):
+    """the vulnerability phase patches a host's os/services/processes dicts *in place*; that only
+    affects the intended host if every Host owns its own dict objects: each dict handed to Host(...)
+    must be a fresh copy / display, or be created inside the loop iteration that builds the host"""
+    n = 0
+    for meth in ("_generate_uniform_hosts", "_generate_correlated_hosts"):
+        fi, ip, s, cn = method_run(ctx, meth, no_inline=("_possible_host_configs",
+                                                         "_get_host_config", "_get_host_value"))
+        for ev in s.events:
+            if ev.kind != "new" or ev.data["cls"] != "Host":
+                continue
+            host_loops = [c for c in ev.pc if c[0] == "inloop"]
+            kw = dict(ev.data["kwargs"])
+            for arg in ("os", "services", "processes"):
+                t = kw.get(arg)
+                n += 1
+                fresh, why = owned(ip, cn, t, host_loops)
+                chk.ob("C16.own-config", f"{meth}: Host({arg}=...) receives a dict owned by that "
+                       "host alone (fresh copy, or built inside the host's loop iteration)", fresh,
+                       why, ev.loc)
+    chk.floor("C16.own-config", n, 6, "Host configuration arguments")
+    # ... and the patching helpers mutate in place (item assignment), which is why ownership matters
+    gcls = ctx.repo.cls(GEN_MOD, "ScenarioGenerator")
+    inplace = 0
+    for name in ("_update_host_exploit_vulnerability", "_update_host_privesc_vulnerability",
+                 "_update_host_os"):
+        m = gcls.methods.get(name)
+        if m is None:
+            continue
+        for node in ast.walk(m.node):
+            if isinstance(node, ast.Subscript) and isinstance(node.ctx, ast.Store) \
+                    and isinstance(node.value, ast.Attribute) \
+                    and node.value.attr in ("os", "services", "processes"):
+                inplace += 1
+    chk.extra["inplace_patch_sites"] = inplace
+
+
+def owned(ip, cn, t, host_loops):
+    if t is None:
+        return False, "argument missing"
+    if t[0] == "mcall" and t[2] == "copy":
+        return True, ""
+    if t[0] == "call" and t[1] in ("builtins.dict", "copy.copy", "copy.deepcopy"):
+        return True, ""
+    if t[0] == "comp" and t[1] == "dict":
+        return True, ""
+    if t[0] == "dictobj":
+        pc0 = ip.heap[t[1]].get("pc0", ())
+        if all(l in pc0 for l in host_loops) and host_loops:
+            return True, ""
+        return False, (f"the dict {cn.show(t)[:80]} is created outside the loop iteration that builds "
+                       "the host and passed without a copy: all hosts built from it share one object, "
+                       "so patching one host's configuration silently changes the others")
+    return False, (f"{cn.show(t)[:100]} is not a fresh dict (no copy): hosts may share it, so patching "
+                   "one host's configuration in place changes others and can undo established "
+                   "vulnerabilities")
 
 
 def check_os_choices(ctx, chk):
